@@ -279,26 +279,32 @@ def TYPE_SOURCE_OK(api, hint_api, pref_is_docstring):
 
 
 def FRESH_DOCS(root, style, api):
-    """Documentation of every function / class obtained from a new parser per query (no cache history)."""
+    """Documentation of every element obtained without cache history: one parser (one griffe load), whose
+    one-entry cache is emptied before every query, queried in reverse order of the analysis."""
     from types import SimpleNamespace
     from safeds_stubgen.docstring_parsing import create_docstring_parser
+    parser = create_docstring_parser(style, root)
+
+    def reset():
+        for attr in ("_DocstringParser__cached_node", "_DocstringParser__cached_docstring"):
+            if hasattr(parser, attr):
+                setattr(parser, attr, None)
     out = {}
-    for fid, f in api.functions.items():
-        p = create_docstring_parser(style, root)
-        out[fid] = p.get_function_documentation(SimpleNamespace(fullname=fid.replace("/", ".")))
-    for cid, c in api.classes.items():
-        p = create_docstring_parser(style, root)
-        out[cid] = p.get_class_documentation(SimpleNamespace(fullname=cid.replace("/", ".")))
-    for fid, f in api.functions.items():
-        owner = fid.rsplit("/", 1)[0]
-        for prm in f.parameters:
-            p = create_docstring_parser(style, root)
-            out[fid + "/" + prm.name] = p.get_parameter_documentation(fid.replace("/", "."), prm.name,
-                                                                       owner if owner in api.classes else "")
-    for aid, a in api.attributes_.items():
+    for aid, a in reversed(list(api.attributes_.items())):
         owner = aid.rsplit("/", 1)[0]
-        p = create_docstring_parser(style, root)
-        out[aid] = p.get_attribute_documentation(owner, a.name)
+        reset()
+        out[aid] = parser.get_attribute_documentation(owner, a.name)
+    for fid, f in reversed(list(api.functions.items())):
+        owner = fid.rsplit("/", 1)[0]
+        for prm in reversed(f.parameters):
+            reset()
+            out[fid + "/" + prm.name] = parser.get_parameter_documentation(fid.replace("/", "."), prm.name,
+                                                                            owner if owner in api.classes else "")
+        reset()
+        out[fid] = parser.get_function_documentation(SimpleNamespace(fullname=fid.replace("/", ".")))
+    for cid, c in reversed(list(api.classes.items())):
+        reset()
+        out[cid] = parser.get_class_documentation(SimpleNamespace(fullname=cid.replace("/", ".")))
     return out
 
 
